@@ -68,6 +68,12 @@ def _cases(draw):
     scale = draw(st.sampled_from([1.0, 1.0, 1.0, 1.0, 1e-4, 1e-8, 1e5, 2.0 ** -200, 2.0 ** -260, 2.0 ** 170, 2.0 ** 250]))
     if scale != 1.0:
         cols = [[v * scale for v in c] for c in cols]
+    elif ny > 1 and draw(st.integers(0, 2)) == 0:
+        # components of very different magnitude in one call (a count next to a p-value)
+        scale = "per-component"
+        cs = draw(st.lists(st.sampled_from([1.0, 2.0 ** 190, 2.0 ** -190, 2.0 ** 130, 2.0 ** -250, 1e80, 1e-10]),
+                           min_size=ny, max_size=ny))
+        cols = [[v * c_ for v in c] for c, c_ in zip(cols, cs)]
     nan_mask = [[False] * n for _ in range(ny)]
     if n > 1 and draw(st.booleans()):
         for j in range(ny):
@@ -78,15 +84,16 @@ def _cases(draw):
     est = []
     for j in range(ny):
         fin = [x for x, mk in zip(cols[j], nan_mask[j]) if not mk]
+        cscale = scale if scale != "per-component" else cs[j]
         k = draw(st.sampled_from(["inside", "on", "below", "above", "median"]))
         if k == "on":
             e = fin[draw(st.integers(0, len(fin) - 1))]
         elif k == "below":
-            e = min(fin) - draw(st.sampled_from([0.5, 1e-9, 100.0])) * scale
+            e = min(fin) - draw(st.sampled_from([0.5, 1e-9, 100.0])) * cscale
         elif k == "above":
-            e = max(fin) + draw(st.sampled_from([0.5, 1e-9, 100.0])) * scale
+            e = max(fin) + draw(st.sampled_from([0.5, 1e-9, 100.0])) * cscale
         elif k == "median":
-            e = sorted(fin)[len(fin) // 2] + draw(st.sampled_from([0.0, 0.1])) * scale
+            e = sorted(fin)[len(fin) // 2] + draw(st.sampled_from([0.0, 0.1])) * cscale
         else:
             e = min(fin) + draw(st.floats(min_value=0, max_value=1)) * (max(fin) - min(fin))
         est.append(float(e))
@@ -102,6 +109,7 @@ def _cases(draw):
                 A=list(A), alpha=alpha, alpha2=alpha2,
                 perm_seed=draw(st.integers(0, 10**6)), extra_nans=draw(st.integers(1, 3)),
                 theta_dtype=draw(st.sampled_from(["float64", "float64", "float32", "int", "F"])),
+                alpha_layout=draw(st.sampled_from(["C", "F", "T"])),
                 aff=[draw(st.sampled_from([0.5, 2.0, 4.0, 0.125])), float(draw(st.integers(-8, 8)))])
 
 
@@ -151,7 +159,7 @@ def check(case):
     theta = _theta(case)
     td = case.get("theta_dtype", "float64")
     has_nan = any(any(r) for r in case["nan"])
-    if td == "float32" and case["kind"] in ("discrete", "constant", "dyadic") and case.get("scale", 1.0) == 1.0:
+    if td == "float32" and case["kind"] in ("discrete", "constant", "dyadic") and case.get("scale", 1.0) in (1.0,):
         theta = theta.astype(np.float32)  # exactly representable values
     elif td == "int" and case["kind"] == "discrete" and not has_nan and case.get("scale", 1.0) == 1.0:
         theta = theta.astype(np.int64)
@@ -160,6 +168,9 @@ def check(case):
     theta0 = theta.copy()
     est = np.asarray(case["est"], dtype=float).reshape(Y)
     alpha = np.asarray(case["alpha"], dtype=float).reshape(A)
+    if len(A) >= 2 and case.get("alpha_layout", "C") != "C":
+        # the same alphas in Fortran order / as a transposed view
+        alpha = np.asfortranarray(alpha) if case["alpha_layout"] == "F" else np.ascontiguousarray(alpha.T).T
     alpha_arg = float(alpha) if A == () else alpha
     est_arg = float(est) if Y == () else est
     got = np.asarray(bootstrap_ci(theta, est_arg, alpha_arg, method=method))
@@ -304,4 +315,4 @@ PROP = Prop(
                  "finite replicates' claim presupposes one)"],
 )
 
-RULE_EXTRA = ('replicates scaled by 1e-8..1e5 and by 2^-260..2^250 with purely relative tolerances; alphas 1e-12..1-1e-9; float32 / int64 / Fortran-ordered replicate arrays.')
+RULE_EXTRA = ('components of one call scaled by factors from 2^-250 to 2^190 apart (cubes stay below the overflow threshold); alpha arrays in Fortran order / as transposed views; replicates scaled by 1e-8..1e5 and by 2^-260..2^250 with purely relative tolerances; alphas 1e-12..1-1e-9; float32 / int64 / Fortran-ordered replicate arrays.')
